@@ -11,4 +11,5 @@ import OsacaVerif.Spec.ReportView
 import OsacaVerif.Lemmas.Fmt
 import OsacaVerif.Lemmas.Report
 import OsacaVerif.Lemmas.ReportTable
+import OsacaVerif.Lemmas.ReportLcd
 import OsacaVerif.Props.C13
